@@ -190,6 +190,181 @@ theorem quadraticMultiKnapsack_cons (values weights : List Rat) (profits : List 
         rw [if_neg h1]
         exact ⟨_, rfl, rfl, rfl⟩
 
+
+/-! ## `quadratic_assignment` -/
+
+/-- `Σ_{a ∈ l} g a` -/
+def nsum (g : Nat → Rat) : List Nat → Rat
+  | [] => 0
+  | a :: r => g a + nsum g r
+
+theorem nsum_congr (g h : Nat → Rat) (l : List Nat) (hh : ∀ a ∈ l, g a = h a) : nsum g l = nsum h l := by
+  induction l with
+  | nil => rfl
+  | cons a r ih => simp only [nsum]; rw [hh a (by simp), ih (fun b hb => hh b (by simp [hb]))]
+
+theorem nsum_zero (l : List Nat) : nsum (fun _ => 0) l = 0 := by
+  induction l with
+  | nil => rfl
+  | cons a r ih => simp only [nsum, ih]; grind
+
+theorem bagSum_eq_nsum (x : Label → Rat) (g : Nat → List (PTerm Label)) (l : List Nat) :
+    bagSum x g l = nsum (fun a => evalBag x (g a)) l := by
+  induction l with
+  | nil => rfl
+  | cons a r ih => simp only [bagSum, nsum, ih]
+
+theorem nsum_filter (g : Nat → Rat) (p : Nat → Bool) (l : List Nat) :
+    nsum g (l.filter p) = nsum (fun a => if p a then g a else 0) l := by
+  induction l with
+  | nil => rfl
+  | cons a r ih =>
+    simp only [List.filter_cons, nsum]
+    split
+    · simp only [nsum, ih]
+    · rw [ih]; grind
+
+theorem evalBag_mapNat (x : Label → Rat) (f : Nat → PTerm Label) (l : List Nat) :
+    evalBag x (l.map f) = nsum (fun a => (f a).eval x) l := by
+  induction l with
+  | nil => rfl
+  | cons a r ih => simp only [List.map_cons, evalBag, nsum, ih]
+
+/-- the indicator picks one summand: `Σ_{j<n} (if a = j then g j else 0) = g a` for `a < n` -/
+theorem nsum_indicator (g : Nat → Rat) (a n : Nat) (ha : a < n) :
+    nsum (fun j => if a = j then g j else 0) (List.range n) = g a := by
+  induction n with
+  | zero => omega
+  | succ n ih =>
+    rw [List.range_succ]
+    have happ : ∀ (h : Nat → Rat) (l₁ l₂ : List Nat), nsum h (l₁ ++ l₂) = nsum h l₁ + nsum h l₂ := by
+      intro h l₁ l₂
+      induction l₁ with
+      | nil => simp only [List.nil_append, nsum]; grind
+      | cons b r ihr => simp only [List.cons_append, nsum, ihr]; grind
+    rw [happ]
+    by_cases hn : a = n
+    · subst hn
+      have : nsum (fun j => if a = j then g j else 0) (List.range a) = 0 := by
+        rw [nsum_congr _ (fun _ => 0) _ (fun j hj => by
+          have : j < a := List.mem_range.1 hj
+          have : ¬ a = j := by omega
+          simp [this]), nsum_zero]
+      rw [this]; simp only [nsum, if_pos rfl]; grind
+    · rw [ih (by omega)]
+      simp only [nsum, if_neg hn]; grind
+
+/-- a 0/1 sample that places facility `i` at location `π i` -/
+def assignSample (π : Nat → Nat) (x : Label → Rat) (n : Nat) : Prop :=
+  ∀ i j, i < n → j < n → x (xIJ i j) = if π i = j then 1 else 0
+
+/-- the terms behind cell `(i, j)` at an assignment: facility `i` contributes, with every *later* facility `k`,
+    both directed flows times the directed distances between their locations -/
+theorem qapRow_eval (n : Nat) (D F : List (List Rat)) (π : Nat → Nat) (hπ : ∀ i, i < n → π i < n) (x : Label → Rat)
+    (hx : assignSample π x n) (i j : Nat) (hi : i < n) (hj : j < n) :
+    evalBag x (qapRow n D F i j)
+      = if π i = j then nsum (fun k => if i < k then qapCoef D F i (π i) k (π k) else 0) (List.range n) else 0 := by
+  unfold qapRow
+  rw [evalBag_flatMap, bagSum_eq_nsum]
+  have inner : ∀ k ∈ List.range n,
+      evalBag x (((List.range n).filter (fun l => decide (i < k ∨ (i = k ∧ j < l)))).map fun l =>
+          PTerm.quad (xIJ i j) (xIJ k l) (qapCoef D F i j k l))
+        = if π i = j then (if i < k then qapCoef D F i j k (π k) else 0) else 0 := by
+    intro k hk
+    have hk' : k < n := List.mem_range.1 hk
+    rw [evalBag_mapNat, nsum_filter]
+    by_cases hij : π i = j
+    · rw [if_pos hij]
+      have : nsum (fun l => if decide (i < k ∨ (i = k ∧ j < l)) = true then (PTerm.quad (xIJ i j) (xIJ k l) (qapCoef D F i j k l)).eval x else 0) (List.range n)
+          = nsum (fun l => if π k = l then (if i < k then qapCoef D F i j k l else 0) else 0) (List.range n) := by
+        apply nsum_congr
+        intro l hl
+        have hl' : l < n := List.mem_range.1 hl
+        simp only [PTerm.eval, hx i j hi hj, hx k l hk' hl', if_pos hij, decide_eq_true_eq]
+        by_cases hkl : π k = l
+        · simp only [if_pos hkl]
+          by_cases hik : i < k
+          · simp only [hik, true_or, if_true]; grind
+          · simp only [hik, false_or, if_false]
+            by_cases hik2 : i = k
+            · subst hik2
+              have : ¬ j < l := by omega
+              simp [this]
+            · simp [hik2]
+        · simp only [if_neg hkl]; split <;> grind
+      rw [this, nsum_indicator _ (π k) n (hπ k hk')]
+    · rw [if_neg hij]
+      rw [nsum_congr _ (fun _ => 0) _ (fun l hl => by
+        have hl' : l < n := List.mem_range.1 hl
+        simp only [PTerm.eval, hx i j hi hj, if_neg hij]
+        split <;> grind), nsum_zero]
+  rw [nsum_congr _ _ _ inner]
+  by_cases hij : π i = j
+  · simp only [if_pos hij]
+    apply nsum_congr
+    intro k _
+    rw [hij]
+  · simp only [if_neg hij]; exact nsum_zero _
+
+/-- **objective at an assignment** = `Σ_{i<k} (F[i][k]·D[π i][π k] + F[k][i]·D[π k][π i])` — the quadratic-assignment
+    cost `Σ_{i≠k} F[i][k]·D[π i][π k]` written over unordered pairs of facilities -/
+theorem quadraticAssignment_obj (D F : List (List Rat)) (q : GCqm) (h : quadraticAssignment D F = some q)
+    (π : Nat → Nat) (hπ : ∀ i, i < D.length → π i < D.length) (x : Label → Rat) (hx : assignSample π x D.length) :
+    evalBag x q.obj
+      = nsum (fun i => nsum (fun k => if i < k then
+            matGet F i k * matGet D (π i) (π k) + matGet F k i * matGet D (π k) (π i) else 0) (List.range D.length)) (List.range D.length) := by
+  unfold quadraticAssignment at h
+  simp only at h
+  split at h
+  · simp at h
+  · simp only [Option.some.injEq] at h; subst h
+    simp only [evalBag_append]
+    have hz : evalBag x ((List.range D.length).flatMap (fun i => (List.range D.length).map (fun j => PTerm.lin (xIJ i j) 0))) = 0 := by
+      apply evalBag_flatMap_zero
+      intro i _
+      exact evalBag_zerosBy x (fun j => xIJ i j) _
+    rw [hz, evalBag_flatMap, bagSum_eq_nsum]
+    have : ∀ i ∈ List.range D.length,
+        evalBag x ((List.range D.length).flatMap (fun j => qapRow D.length D F i j))
+          = nsum (fun k => if i < k then qapCoef D F i (π i) k (π k) else 0) (List.range D.length) := by
+      intro i hi
+      have hi' : i < D.length := List.mem_range.1 hi
+      rw [evalBag_flatMap, bagSum_eq_nsum]
+      rw [nsum_congr _ _ _ (fun j hj => qapRow_eval D.length D F π hπ x hx i j hi' (List.mem_range.1 hj))]
+      exact nsum_indicator _ (π i) D.length (hπ i hi')
+    rw [nsum_congr _ _ _ this]
+    have e0 : ∀ r : Rat, 0 + r = r := by intro r; grind
+    rw [e0]
+    rfl
+
+theorem quadraticAssignment_feasible (D F : List (List Rat)) (q : GCqm) (h : quadraticAssignment D F = some q) (x : Label → Rat) :
+    q.feasible x ↔
+      (∀ i ∈ List.range D.length, rangeSum x (xIJ i) (List.range D.length) = 1)
+      ∧ (∀ j ∈ List.range D.length, rangeSum x (fun i => xIJ i j) (List.range D.length) = 1) := by
+  unfold quadraticAssignment at h
+  simp only at h
+  split at h
+  · simp at h
+  · simp only [Option.some.injEq] at h; subst h
+    simp only [GCqm.feasible, List.mem_append, List.mem_map]
+    constructor
+    · intro hf
+      constructor
+      · intro i hi
+        have := hf _ (Or.inl ⟨i, hi, rfl⟩)
+        simp only [GCons.holds, evalBag_ones] at this
+        exact this
+      · intro j hj
+        have := hf _ (Or.inr ⟨j, hj, rfl⟩)
+        simp only [GCons.holds, evalBag_append, evalBag_ones (f := fun i => xIJ i j), evalBag, PTerm.eval] at this
+        grind
+    · rintro ⟨h1, h2⟩ c hc
+      rcases hc with ⟨i, hi, rfl⟩ | ⟨j, hj, rfl⟩
+      · simp only [GCons.holds, evalBag_ones]; exact h1 i hi
+      · have := h2 j hj
+        simp only [GCons.holds, evalBag_append, evalBag_ones (f := fun i => xIJ i j), evalBag, PTerm.eval]
+        grind
+
 /-! ## kMC-SAT clause energies -/
 
 /-- the value of a literal: `sign · x(variable)` -/
